@@ -357,33 +357,63 @@ def rangeOf (K : UnitQ) : Option LVal → Except CErr (Option (Rat × Rat))
   | none => .ok none
   | some _ => .error .attr
 
+/-- `T_ref = params['T_ref']` (always present: the schema gives a default); `None` breaks the arithmetic below -/
+def cTref (p : Params) : Except CErr QV :=
+  match p.lookup "T_ref" with
+  | some (.q t) => .ok t
+  | _ => .error .typeErr
+
+/-- 304-309: `ND_H_ref`, else `H_ref/(R*T_ref)`, else `None` -/
+def cH (R Tq : QV) (p : Params) : Except CErr (Option QV) :=
+  match getF p "ND_H_ref" with
+  | some x => .ok (some (.num x))
+  | none =>
+    match getQ p "H_ref" with
+    | some h =>
+      match h.div (R.mul Tq) with
+      | .ok r => .ok (some r)
+      | .error e => .error e
+    | none => .ok none
+
+/-- 311-316: `ND_S_ref`, else `S_ref/R`, else `None` -/
+def cS (R : QV) (p : Params) : Except CErr (Option QV) :=
+  match getF p "ND_S_ref" with
+  | some x => .ok (some (.num x))
+  | none =>
+    match getQ p "S_ref" with
+    | some s =>
+      match s.div R with
+      | .ok r => .ok (some r)
+      | .error e => .error e
+    | none => .ok none
+
+def ndValue : LVal → Except CErr QV
+  | .f y => .ok (.num y)
+  | _ => .error .typeErr
+
+def dimValue (R : QV) : LVal → Except CErr QV
+  | .q c => c.div R
+  | _ => .error .typeErr
+
+/-- 318-329: a non-empty `ND_Cp_data`, else a non-empty `Cp_data` (each `Cp/R`), else no table -/
+def cCp (R : QV) (K : UnitQ) (p : Params) : Except CErr (List (Rat × QV)) :=
+  match p.lookup "ND_Cp_data" with
+  | some (.list (x :: xs)) => cpPoints K ndValue (x :: xs)
+  | _ =>
+    match p.lookup "Cp_data" with
+    | some (.list (x :: xs)) => cpPoints K (dimValue R) (x :: xs)
+    | _ => .ok []
+
 /-- `ThermochemIncomplete.yaml_construct(params, context)`; `R` is `Consts.GAS_CONSTANT`, `K` the unit `'K'` -/
-def construct (R : QV) (K : UnitQ) (p : Params) : Except CErr Loaded := do
-  let Tq ← match p.lookup "T_ref" with
-    | some (.q t) => pure t
-    | _ => throw CErr.typeErr
-  let H ← match getF p "ND_H_ref" with
-    | some x => pure (some (QV.num x))
-    | none => match getQ p "H_ref" with
-      | some h => do let r ← h.div (R.mul Tq); pure (some r)
-      | none => pure none
-  let S ← match getF p "ND_S_ref" with
-    | some x => pure (some (QV.num x))
-    | none => match getQ p "S_ref" with
-      | some s => do let r ← s.div R; pure (some r)
-      | none => pure none
-  let cp ← match p.lookup "ND_Cp_data" with
-    | some (.list (x :: xs)) =>
-      cpPoints K (fun v => match v with | .f y => .ok (.num y) | _ => .error .typeErr) (x :: xs)
-    | _ => match p.lookup "Cp_data" with
-      | some (.list (x :: xs)) =>
-        cpPoints K (fun v => match v with | .q c => c.div R | _ => .error .typeErr) (x :: xs)
-      | _ => pure []
-  let range ← rangeOf K (p.lookup "range")
-  let Tref ← Tq.inUnits K
-  let cp' := dictOfList cp
-  checkValid cp' Tref range
-  pure ⟨H, S, cp', Tref, range⟩
+def construct (R : QV) (K : UnitQ) (p : Params) : Except CErr Loaded :=
+  cTref p >>= fun Tq =>
+  cH R Tq p >>= fun H =>
+  cS R p >>= fun S =>
+  cCp R K p >>= fun cp =>
+  rangeOf K (p.lookup "range") >>= fun range =>
+  Tq.inUnits K >>= fun Tref =>
+  checkValid (dictOfList cp) Tref range >>= fun _ =>
+  .ok ⟨H, S, dictOfList cp, Tref, range⟩
 
 /-- the schema of `ThermochemIncomplete` / `ThermochemGroup` (`_yaml_schema`); tied to the live schema by a table
 obligation in `Props/C12` -/
